@@ -306,6 +306,19 @@ fn ref_feed_code(ts: &TypeSpec) -> String {
     s
 }
 
+/// C17: when `Eq` is derived together with `PartialEq`, the value `==` really compares must be `Eq`. The distinct
+/// `partial_ord` key is the NaN-like `Pv`: a type whose `==` goes through it is refused by rustc by design (E0277
+/// in the hidden Eq assertion), so such a program has no behaviour to observe.
+pub fn refused_by_eq_assertion(ts: &TypeSpec, derived: &[Tr]) -> bool {
+    if !(derived.contains(&Eq) && derived.contains(&PartialEq)) || ts.style != KeyStyle::Distinct {
+        return false;
+    }
+    ts.variants.iter().any(|v| v.fields.iter().any(|f| {
+        let customized = [Eq, Ord].iter().any(|a| f.combo.get(*a).key() || f.combo.get(*a).by());
+        customized && select(&f.combo, PartialEq) == Sel::Key(PartialOrd) && f.identity != Some(PartialOrd)
+    }))
+}
+
 /// Does the in-process expander accept every derived trait?  Err(description) otherwise.
 pub fn expander_accepts(entry: Entry, derived: &[Tr], item: &str) -> Result<(), String> {
     let traits = names(derived);
